@@ -38,6 +38,7 @@ def run(ctx):
         join_fanout(ctx, crate, tag)
         push_pairing(ctx, crate, tag)
         drain_type(ctx, crate, tag)
+        ctx.guard("queued-in-consumer" + tag, queued_in_consumer, ctx, crate, crs, tag)
 
 
 def solver_coroutines(crate):
@@ -244,3 +245,29 @@ def drain_type(ctx, crate, tag):
                 ty = f["ty"]
                 ok = ty.startswith("futures::stream::FuturesUnordered<")
     ctx.ob("drain-type" + tag, ENCODER_ADT, "pending_futures", ok, "", "pending_futures: %s" % ty[:80])
+
+
+class _DepsConsumerOnly:
+    """Keeps the obligations of C01's encoding rule that concern the dependencies consumer's queueing."""
+    def __init__(self, ctx):
+        self._c = ctx
+
+    def __getattr__(self, n):
+        return getattr(self._c, n)
+
+    def ob(self, rule, fn, inst, ok, where="", detail=""):
+        if str(fn).endswith("on_dependencies_available") and str(inst).startswith("queue_"):
+            self._c.ob(rule.replace("encoding", "queued-in-consumer"), fn, inst, ok, where, detail)
+
+    def floor(self, rule, what, n, least, where=""):
+        if "in the dependencies consumer" in what:
+            self._c.floor(rule.replace("encoding", "queued-in-consumer"), what, n, least)
+
+
+def queued_in_consumer(ctx, crate, crs, tag):
+    """Everything a received Dependencies value implies is queued by the consumer itself (complete, unconditional loops over the
+    requirements and the constrains), i.e. before control returns to the poll loop - not parked for a later round."""
+    import c01, mech
+    c01.encoding(_DepsConsumerOnly(ctx), crate, crs, tag)
+    for callee in ("queue_package", "queue_requirement", "queue_constraint"):
+        mech.callers_exact(ctx, "queued-in-consumer", crate, ENC + callee, {ENC + "on_dependencies_available"}, tag, 1)
